@@ -18,6 +18,13 @@ CHECKS = {
  'C13': dict(cat='exploration', technique='exhaustive differential exploration: every ordered selection of the instantiation list, every parameter renaming, every short history of earlier modules; blocks compared with the single-instantiation run',
              text='For 5 templated declaration variants: every subset+permutation of a 3 (4) element instantiation list, 9 parameter renamings (incl. swapping T/U and single-letter names), 3 repetitions and every history of <=1 (2) earlier modules; the pybind registration, MATLAB classdef/function file and id-normalised MEX routines of each instantiation must equal those of the single-instantiation run.',
              note='Differential oracle: no expected values; MATLAB ids normalised through the dispatch table.', ref='2/C13'),
+
+ 'C03': dict(cat='exploration', technique='bounded-exhaustive enumeration of (module, top namespace, ignore list, serialization) with a scanner of the emitted registrations compared as a multiset against a reference API model',
+             text='12 entity kinds in each of 6 namespace scopes, alone under 8 top-namespace settings x all applicable ignore lists x serialization flag, and in all ordered pairs under 4 (8) top settings; the registrations scanned from the real generator output (classes, ctors, methods, statics, properties, operators, dunders, enums, enumerators, functions, variables, submodules) must equal the reference API exactly, with every submodule created once, after its parent and before use, and all Python keywords (keyword.kwlist) escaped.',
+             note='Reference API model (vf/refpy.py) and the C++ scanner (vf/gen.py) are trusted; compiled introspection is C04.', ref='2/C03'),
+ 'C09': dict(cat='exploration', technique='bounded-exhaustive enumeration of interface constructs (alone, pairs, option sets); every generated translation unit compiled (g++ -fsyntax-only, templates instantiated) against a generated mock library',
+             text='24 interface constructs (operators, defaults with quotes/brackets, nested template arguments, templates, typedefs, enums at every scope, inheritance, variables, serialization/print, keyword names, name-collision shapes) alone under 5 option sets and in every unordered (ordered) pair; each emitted TU must compile against a mock library that declares the entities as written; lexical checks (lambda parameters vs py::arg list, balanced brackets) on every output.',
+             note='Mock library generator trusted (it is compiled on its own first; a mock that does not compile is a harness error, not a verdict). No Eigen/Boost in the image.', ref='2/C09'),
 }
 NOT_YET = 'check not built yet in this session (see DESIGN.md for the planned exhaustive exploration)'
 
